@@ -373,7 +373,7 @@ def conformance(rep, wd: Path, quick: bool, rng: random.Random, pairs: Optional[
         return
     drivers = ["h5"] + [d_ for d_ in ("ih5", "mf") if glue.get("pack_" + d_) == "ok"]
     hists = []
-    n = 36 if quick else 300
+    n = 36 if quick else 200
     for k in range(n):
         hists.append(gen_history(rng, rng.randint(5, 9)))
     # the model's snapshot pairs as pack -> edit -> update -> update histories (tokens and names of this harness)
